@@ -33,6 +33,9 @@ pub(super) enum Action {
 
     /// Acquire attempt that never blocks
     TryLock,
+
+    /// Release
+    Unlock,
 }
 
 impl Mutex {
@@ -60,6 +63,20 @@ impl Mutex {
     pub(crate) fn try_acquire_lock(&self, location: Location) -> bool {
         self.state.branch_action(Action::TryLock, location);
         self.post_acquire()
+    }
+
+    /// Releases the lock at a scheduling point: whether another thread's
+    /// acquire attempt happens before or after the release is explored.
+    pub(crate) fn unlock(&self) {
+        let unwinding = std::thread::panicking()
+            || !super::execution(|execution| execution.threads.is_active());
+
+        if !unwinding {
+            self.state
+                .branch_action(Action::Unlock, Location::disabled());
+        }
+
+        self.release_lock();
     }
 
     pub(crate) fn release_lock(&self) {
